@@ -257,7 +257,8 @@ def main():
                                         ExprSizes="= {2, 4}", LeafSizes="= {4}", MaxOps="= %d" % (3 if thorough else 2))}),
         "seq": dict(module="MCRenderIO", cfg="c.cfg", workers=8 if thorough else 4, timeout=1500,
                     files={"c.cfg": cfg("RenderIO_seq.cfg", Emit="= TRUE",
-                                        **({"LitSizes": "= {1, 3}", "ExprSizes": "= {1, 4}"} if thorough else {}))}),
+                                        **({"LitSizes": "= {1, 3}", "ExprSizes": "= {1, 4}"} if thorough else
+                                           {"SideKs": "= {0}", "LeafSizes": "= {}"}))}),
         "big": dict(module="MCRenderIOBig", cfg="d.cfg", workers=8 if thorough else 2, timeout=1500,
                     files={"d.cfg": cfg("RenderIO_big.cfg", Emit="= TRUE"), "MCRenderIOBig.tla": big_text}),
     }
